@@ -349,4 +349,17 @@ func (s *SweepingProvider) onOffline()
   modifies *
   ensures [internal-offline-clears-queue-and-invalidates-estimate] $cleared && s.cachedAvgPrefixLen == -1
   ghost at call(Clear): $cleared = true
+
+# ---- the reprovide alarm (C17, C14) ----------------------------------------------
+# The worker started for the region whose alarm fired reprovides exactly that
+# region, only with a worker-pool slot, returns the slot and reports to the wait
+# group. (handleReprovide itself - schedule arithmetic over a generic trie - is
+# not under contract: listed as undecided for C17.)
+funclit 0 in (s *SweepingProvider) handleReprovide()
+  props C17 C14
+  ghostvar $acq bool = false
+  ensures [accounted] tagged("wgdone:s.wg")
+  ghost at call(Acquire): $acq = ($ret0 == nil)
+  ghost at before call(batchReprovide): assert($acq && $arg0 == currentPrefix)
+  ghost at before call(Release): assert($acq)
 @*/
